@@ -83,6 +83,11 @@ func ReadBehaviours(path string) ([]Behaviour, error) {
 		if err := json.Unmarshal(sc.Bytes(), &b); err != nil {
 			return nil, err
 		}
+		for _, st := range b.Steps {
+			if len(st) > 0 && toStr(st[0]) == "StatF" { // the action is called StatF in the module (Stat is the POSIX operator)
+				st[0] = "Stat"
+			}
+		}
 		out = append(out, b)
 	}
 	return out, sc.Err()
@@ -294,15 +299,18 @@ type CaseCfg struct {
 type TraceLine map[string]any
 
 type Case struct {
-	Cfg   CaseCfg
-	A, B  *World
-	N     *Nine
-	T     *Twin
-	Base  string
-	Trace []TraceLine
-	Discs []Disc
-	outA0 *Listing
-	Steps int
+	Cfg     CaseCfg
+	A, B    *World
+	N       *Nine
+	T       *Twin
+	Base    string
+	Trace   []TraceLine
+	Discs   []Disc
+	outA0   *Listing
+	Steps   int
+	la, lb  *Listing
+	prevB   string
+	NoTrace bool
 }
 
 func plainName(s string) bool {
@@ -335,7 +343,16 @@ func (c *Case) opSig(step []any, tw Obs, pre map[int]TFid) string {
 		if toInt(step[1]) == toInt(step[2]) {
 			ip = 1
 		}
-		return fmt.Sprintf("Walk:inplace=%d:n=%d:k=%d:names=%s", ip, len(names), len(tw.Qids), nameClass(names))
+		shape := "complete"
+		switch {
+		case len(names) == 0:
+			shape = "clone"
+		case tw.Res != "ok":
+			shape = "none"
+		case len(tw.Qids) < len(names):
+			shape = "partial"
+		}
+		return fmt.Sprintf("Walk:inplace=%d:%s:names=%s", ip, shape, nameClass(names))
 	case "Create":
 		return fmt.Sprintf("Create:kind=%s:name=%s:mode=%d", toStr(step[3]), nameClass([]string{toStr(step[2])}), toInt(step[5]))
 	case "Rename":
@@ -364,8 +381,12 @@ func specialStep(step []any) bool {
 		return nameClass(toStrs(step[3])) != "plain"
 	case "Create":
 		return !plainName(toStr(step[2]))
-	case "Rename":
-		return !plainName(toStr(step[2]))
+	case "Rename": // a leading '/' means "relative to the root", inner '/' a path: both legitimate
+		for _, c := range strings.Split(strings.TrimPrefix(toStr(step[2]), "/"), "/") {
+			if !plainName(c) {
+				return true
+			}
+		}
 	}
 	return false
 }
@@ -373,12 +394,16 @@ func specialStep(step []any) bool {
 var readOps = map[string]bool{"Attach": true, "Walk": true, "Stat": true, "Clunk": true}
 
 func NewCase(base string, cfg CaseCfg, ufsFor func(root string) (*Sess, error)) (*Case, error) {
+	return NewCaseWith(base, cfg, func(b string, nm *NameMap) (*World, error) { return BuildWorld(b, cfg.Tree, nm) }, ufsFor)
+}
+
+func NewCaseWith(base string, cfg CaseCfg, build func(base string, nm *NameMap) (*World, error), ufsFor func(root string) (*Sess, error)) (*Case, error) {
 	nm := NewNameMap(cfg.Alphabet)
-	a, err := BuildWorld(base+"/nine", cfg.Tree, nm)
+	a, err := build(base+"/nine", nm)
 	if err != nil {
 		return nil, err
 	}
-	b, err := BuildWorld(base+"/twin", cfg.Tree, nm)
+	b, err := build(base+"/twin", nm)
 	if err != nil {
 		return nil, err
 	}
@@ -399,6 +424,9 @@ func (c *Case) Close() {
 }
 
 func (c *Case) disc(class, key, what string, diverged bool) {
+	if os.Getenv("VERIF_DEBUG") != "" {
+		fmt.Fprintf(os.Stderr, "DISC step %d %s %s -- %s\n", c.Steps, class, key, what)
+	}
 	c.Discs = append(c.Discs, Disc{Class: class, Key: key, What: what, Diverged: diverged})
 }
 
@@ -440,8 +468,8 @@ func (c *Case) traceLine(step []any, tw Obs, lb *Listing, withTree bool) TraceLi
 	return ln
 }
 
-// Run executes the steps; it stops at the first divergence of states.
-func (c *Case) Run(id int, steps [][]any) error {
+// Begin lists both worlds, checks that they start equal and writes the Reset line.
+func (c *Case) Begin(id int) error {
 	la, err := c.A.List()
 	if err != nil {
 		return err
@@ -451,37 +479,69 @@ func (c *Case) Run(id int, steps [][]any) error {
 		return err
 	}
 	c.outA0 = la
+	c.la, c.lb = la, lb
 	if d := DiffListings(la, lb, ""); d != "" {
 		return fmt.Errorf("initial trees differ: %s", d)
 	}
-	c.Trace = append(c.Trace, TraceLine{"act": "Reset", "case": id, "args": []any{}, "m": 1, "tree": lb.Ents, "links": lb.Links()})
-	prevB := fmt.Sprint(lb.Ents, lb.Links())
+	if !c.NoTrace {
+		c.Trace = append(c.Trace, TraceLine{"act": "Reset", "case": id, "args": []any{}, "m": 1, "tree": lb.Ents, "links": lb.Links()})
+	}
+	c.prevB = fmt.Sprint(lb.Ents, lb.Links())
+	return nil
+}
+
+// Run executes the steps; it stops at the first divergence of states.
+func (c *Case) Run(id int, steps [][]any) error {
+	if err := c.Begin(id); err != nil {
+		return err
+	}
 	for _, step := range steps {
+		div, err := c.Step(step)
+		if err != nil {
+			return err
+		}
+		if div {
+			break
+		}
+	}
+	return nil
+}
+
+// Step executes one action on the twin and through 9P and compares.
+func (c *Case) Step(step []any) (bool, error) {
+	var la, lb *Listing
+	{
 		c.Steps++
 		act := toStr(step[0])
+		if os.Getenv("VERIF_DEBUG") == "2" {
+			fmt.Fprintf(os.Stderr, "STEP %d %v\n", c.Steps, step)
+		}
 		pre := map[int]TFid{}
 		for k, v := range c.T.Fids {
 			pre[k] = *v
 		}
 		tw, err := c.T.Do(step)
 		if err != nil {
-			return err
+			return false, err
 		}
 		nn, err := c.N.Do(step)
 		if err != nil {
-			return fmt.Errorf("9P session: %v", err)
+			return false, fmt.Errorf("9P session: %v", err)
 		}
 		la, err = c.A.List()
 		if err != nil {
-			return err
+			return false, err
 		}
 		lb, err = c.B.List()
 		if err != nil {
-			return err
+			return false, err
 		}
+		c.la, c.lb = la, lb
 		sigB := fmt.Sprint(lb.Ents, lb.Links())
-		c.Trace = append(c.Trace, c.traceLine(step, tw, lb, sigB != prevB))
-		prevB = sigB
+		if !c.NoTrace {
+			c.Trace = append(c.Trace, c.traceLine(step, tw, lb, sigB != c.prevB))
+		}
+		c.prevB = sigB
 		c.N.forgetDead(la)
 
 		sig := c.opSig(step, tw, pre)
@@ -566,7 +626,7 @@ func (c *Case) Run(id int, steps [][]any) error {
 			F := c.T.fid(f)
 			got, err := c.N.Stat9(f)
 			if err != nil {
-				return fmt.Errorf("9P session: %v", err)
+				return false, fmt.Errorf("9P session: %v", err)
 			}
 			role := "other"
 			if f == toInt(step[1]) {
@@ -617,11 +677,8 @@ func (c *Case) Run(id int, steps [][]any) error {
 				}
 			}
 		}
-		if diverged {
-			break
-		}
+		return diverged, nil
 	}
-	return nil
 }
 
 func WriteTrace(path string, lines []TraceLine) error {
